@@ -275,44 +275,12 @@ func c13Run(sc *C13Scenario) *c13Outcome {
 		out.skip = "module rejected by the parser"
 		return out
 	}
-	// Reference: the same calls, sequentially, on the twin in the same start state.
-	maxCalls := 0
-	for _, t := range sc.Tasks {
-		if len(t) > maxCalls {
-			maxCalls = len(t)
-		}
-	}
-	expected := make([][]string, len(sc.Tasks))
-	applies := make([][]bool, len(sc.Tasks))
-	if pan, msg := protect(func() {
-		simCall(func() {
-			applyStart(twin, sc.Start)
-			applyStart(m, sc.Start)
-			if sc.Start != "printed" {
-				// All tasks make the same calls on the same receiver; the lone
-				// sequential call sequence is that of task 0.
-				var ref []string
-				var app []bool
-				for _, c := range sc.Tasks[0] {
-					s, ok := doCall(twin, c)
-					ref = append(ref, s)
-					app = append(app, ok)
-				}
-				for i := range sc.Tasks {
-					expected[i], applies[i] = ref, app
-				}
-			} else {
-				for i, t := range sc.Tasks {
-					for _, c := range t {
-						s, ok := doCall(twin, c)
-						expected[i] = append(expected[i], s)
-						applies[i] = append(applies[i], ok)
-					}
-				}
-			}
-		})
-	}); pan {
-		out.skip = "sequential print of the twin panics (not C13's business): " + clip(normDigits(msg), 80)
+	// The module under test is put into its start state; the twin stays untouched
+	// until the concurrent run is over: a sequential print before the run would
+	// warm up every lazily initialised piece of process-wide state (lookup
+	// tables, interned strings) and hide first-use problems from the printers.
+	if pan, msg := protect(func() { simCall(func() { applyStart(m, sc.Start) }) }); pan {
+		out.skip = "sequential print panics (not C13's business): " + clip(normDigits(msg), 80)
 		return out
 	}
 	got := make([][]string, len(sc.Tasks))
@@ -349,6 +317,40 @@ func c13Run(sc *C13Scenario) *c13Outcome {
 		out.class, out.sig, out.detail = "race", sig, first
 		return out
 	}
+	// Reference: the same calls, sequentially, on the twin in the same start state.
+	expected := make([][]string, len(sc.Tasks))
+	applies := make([][]bool, len(sc.Tasks))
+	simrt.Load((&Tape{}).config())
+	if pan, msg := protect(func() {
+		simCall(func() {
+			applyStart(twin, sc.Start)
+			if sc.Start != "printed" {
+				// All tasks make the same calls on the same receiver; the lone
+				// sequential call sequence is that of task 0.
+				var ref []string
+				var app []bool
+				for _, c := range sc.Tasks[0] {
+					s, ok := doCall(twin, c)
+					ref = append(ref, s)
+					app = append(app, ok)
+				}
+				for i := range sc.Tasks {
+					expected[i], applies[i] = ref, app
+				}
+			} else {
+				for i, t := range sc.Tasks {
+					for _, c := range t {
+						s, ok := doCall(twin, c)
+						expected[i] = append(expected[i], s)
+						applies[i] = append(applies[i], ok)
+					}
+				}
+			}
+		})
+	}); pan {
+		out.skip = "sequential print of the twin panics (not C13's business): " + clip(normDigits(msg), 80)
+		return out
+	}
 	for i, r := range res {
 		if r.Panic != nil {
 			msg := fmt.Sprint(r.Panic)
@@ -370,7 +372,84 @@ func c13Run(sc *C13Scenario) *c13Outcome {
 			}
 		}
 	}
+	// Module prints are also compared with the text a sequential print gives in
+	// ANOTHER process (the reference worker): process-wide state corrupted by the
+	// concurrent printers taints the in-process twin as well.
+	if want, ok := c13CrossRef(sc.Module, sc.Start); ok {
+		for i := range sc.Tasks {
+			for j, c := range sc.Tasks[i] {
+				k := c.K % len(callNames)
+				if k != 0 && k != 1 {
+					continue
+				}
+				text := got[i][j]
+				if k == 1 {
+					if nl := strings.IndexByte(text, '\n'); nl >= 0 {
+						text = text[nl+1:]
+					}
+				}
+				if hex64(hash64(text)) != want {
+					out.class = "text"
+					out.sig = callNames[k] + " (cross-process reference)"
+					out.detail = fmt.Sprintf("task %d call %d %s returned text that equals the in-process sequential twin but differs from the sequential print of the same module in another process (process-wide state was corrupted); first lines: %s", i, j, c, clip(text, 300))
+					return out
+				}
+			}
+		}
+	}
 	return out
+}
+
+// C13 cross-process reference: module source -> start state -> hash of String().
+var c13Ref map[string]map[string]string
+
+func c13CrossRef(module, start string) (string, bool) {
+	if c13Ref == nil {
+		if *flagRefFile == "" {
+			return "", false
+		}
+		b, err := os.ReadFile(*flagRefFile)
+		if err != nil {
+			return "", false
+		}
+		var wrap struct {
+			Table map[string]map[string]string `json:"table"`
+		}
+		if json.Unmarshal(b, &wrap) != nil || wrap.Table == nil {
+			return "", false
+		}
+		c13Ref = wrap.Table
+	}
+	key := "fresh"
+	if start == "stale" {
+		key = "stale"
+	}
+	h, ok := c13Ref[module][key]
+	return h, ok
+}
+
+// c13MakeRef prints every module source sequentially (own process).
+func c13MakeRef() {
+	table := map[string]map[string]string{}
+	for _, src := range moduleSources(*flagSeed, *flagTier) {
+		src := src
+		entry := map[string]string{}
+		protect(func() {
+			simCall(func() {
+				m, err := src.Build()
+				if err != nil {
+					return
+				}
+				entry["fresh"] = hex64(hash64(m.String()))
+				staleEdit(m)
+				entry["stale"] = hex64(hash64(m.String()))
+			})
+		})
+		if len(entry) == 2 {
+			table[src.Name] = entry
+		}
+	}
+	emit(outRec{T: "ref", Property: "C13", Extra: map[string]interface{}{"table": table}})
 }
 
 var gapChoices = []int{2, 3, 5, 8, 16, 40, 100, 400, 2000}
@@ -425,7 +504,12 @@ func c13GenScenario(r *rng, srcs []*moduleSource) *C13Scenario {
 }
 
 func c13Search() {
+	if *flagMode == "ref" {
+		c13MakeRef()
+		return
+	}
 	sum := newSummary()
+	runsInProcess := 0
 	srcs := moduleSources(*flagSeed, *flagTier)
 	distinct := hashSet{}
 	failures := 0
@@ -437,8 +521,17 @@ func c13Search() {
 			break
 		}
 		curIndex = idx
+		noteProgress(idx)
 		runSeed := derive(*flagSeed, fmt.Sprintf("C13/%d", idx))
 		curSeed = runSeed
+		if *flagMaxRuns > 0 && runsInProcess >= *flagMaxRuns {
+			// Recycle the process: the first runs of a process are the ones that
+			// meet never-initialised process-wide state.
+			sum.Stopped = true
+			sum.NextSeed = uint64(idx)
+			break
+		}
+		runsInProcess++
 		sc := c13GenScenario(newRNG(runSeed), srcs)
 		o := c13Run(sc)
 		if o.skip != "" {
